@@ -291,16 +291,20 @@ fn main() -> Result<()> {
     // No source may lie inside a directory that this copy writes onto
     // (its own target or another source's): it would be overwritten by
     // the copy itself while it is being read.
+    let mut real_targets = Vec::with_capacity(targets.len());
+    for target in &targets {
+        if let Some(real_target) = real_path(target, true)? {
+            real_targets.push(real_target);
+        }
+    }
     for source in &sources {
         let real_source = match real_path(source, opts.dereference)? {
             Some(p) => p,
             None => continue,
         };
-        for target in &targets {
-            if let Some(real_target) = real_path(target, true)? {
-                if real_source != real_target && real_source.starts_with(&real_target) {
-                    return Err(XcpError::InvalidSource("A source lies inside a directory the copy writes onto").into());
-                }
+        for real_target in &real_targets {
+            if real_source != *real_target && real_source.starts_with(real_target) {
+                return Err(XcpError::InvalidSource("A source lies inside a directory the copy writes onto").into());
             }
         }
     }
